@@ -31,6 +31,10 @@ def unb64(s, shape):
     return np.frombuffer(base64.b64decode(s), dtype=np.float64).reshape(shape)
 
 
+def _same_float(x, y):
+    return x == y or (x != x and y != y)        # equal, or both NaN
+
+
 def synthetic_kernel_inputs(seed):
     """Kernel-level inputs that are the same in every mode (derived from the seed only)."""
     g = np.random.Generator(np.random.PCG64(core.H(seed, "kernel")))
@@ -48,6 +52,16 @@ def synthetic_kernel_inputs(seed):
         cost = big[::2, ::2]                      # non-contiguous view
     elif u < 0.55:
         cost = cost.astype(np.float32)            # another dtype (values already rounded: exactly representable)
+    if k >= 2 and t < 100 and g.random() < 0.12:
+        cost = np.array(cost, dtype=np.float64)
+        cost[:, int(g.integers(k))] = np.inf          # a cluster no point can be assigned to; the optimum stays finite
+        if g.random() < 0.5:
+            cost[int(g.integers(t)), :] = np.where(np.isinf(cost[0]), np.inf, cost[int(g.integers(t))])
+    elif k >= 2 and t < 100 and g.random() < 0.08:
+        # a cluster whose costs are NaN (what a non-positive-definite MRF produces): garbage in, but the SAME garbage
+        # must come out of the compiled and the interpreted kernel
+        cost = np.array(cost, dtype=np.float64)
+        cost[:, int(g.integers(k))] = np.nan
     beta = float(g.choice([0.0, 0.5, 2.0, 7.0])) if g.random() < 0.5 else np.round(g.uniform(0, 4, size=t), 1)
     n, w = int(g.integers(1, 3)), int(g.integers(1, 4))
     nw = n * w
@@ -125,12 +139,13 @@ def compare(case, seed, a, b, ma, mb, counters=None):
         f.append(("C15:kernel_labelling", f"labelling kernel on the same synthetic table: {ma} "
                                           f"{'raises ' + a['kernel_exc'] if a.get('kernel_exc') else 'returns'}, {mb} "
                                           f"{'raises ' + b['kernel_exc'] if b.get('kernel_exc') else 'returns'}"))
-    elif a.get("kernel_exc") is None and (a["kernel_labels"] != b["kernel_labels"] or a["kernel_cost"] != b["kernel_cost"]):
+    elif a.get("kernel_exc") is None and (a["kernel_labels"] != b["kernel_labels"] or
+                                          not _same_float(a["kernel_cost"], b["kernel_cost"])):
         cost, beta, _ = synthetic_kernel_inputs(seed)
         ca, _m = ref.path_cost(cost, beta, a["kernel_labels"])
         cb, _m2 = ref.path_cost(cost, beta, b["kernel_labels"])
         tol = 64 * cost.shape[0] * EPS * (_m + _m2 + float(np.sum(np.abs(ref.beta_vector(beta, cost.shape[0]))))) + 1e-300
-        if abs(ca - cb) > tol or abs(a["kernel_cost"] - b["kernel_cost"]) > tol:
+        if not (abs(ca - cb) <= tol and abs(a["kernel_cost"] - b["kernel_cost"]) <= tol):
             f.append(("C15:kernel_labelling", f"labelling kernel on the same synthetic table: {ma} cost {a['kernel_cost']!r} "
                                               f"vs {mb} cost {b['kernel_cost']!r}"))
         elif counters is not None:
